@@ -41,6 +41,12 @@ func main() {
 		fmt.Printf("HARNESS-ERROR unknown property %q\n", *id)
 		os.Exit(2)
 	}
+	if os.Getenv("VERIF_SUPERVISED") == "" {
+		if code := supervise(*id, *tier, seed, ck.Level); code >= 0 {
+			os.Exit(code)
+		}
+		// could not start a child: run unsupervised
+	}
 	c := evid.New(*id, *tier, seed, ck.Level)
 	if *replay != "" {
 		c.Extra("replay_of", *replay)
